@@ -4,7 +4,7 @@ c11_tie = importlib.util.module_from_spec(_spec); _spec.loader.exec_module(c11_t
 T = "GeomV.C12."
 CFG = {
     "id": "C12",
-    "lean_modules": ["GeomV.C12.Proofs", "GeomV.C12.ProofsExt"] + c11_tie.C12_TIES,
+    "lean_modules": ["GeomV.C12.Proofs", "GeomV.C12.ProofsExt", "GeomV.C12.Negations"] + c11_tie.C12_TIES,
     "lean_dirs": ["C11", "C12"],
     "exe": "geomv_c12",
     "go_cmd": "c12",
@@ -14,6 +14,8 @@ CFG = {
         "C12_insertNearest_topk", "C12_knn", "C12_knn_one", "C12_knn_all", "C12_stableOrder_ok", "C12_history", "C12_knn_empty",
         # phase 3 (ProofsExt): signed k; sort.Sort as any program of Swap calls; literal sortEntries/pruneEntries = branches
         "C12_knn_int", "C12_sort_contract", "C12_prune_lit", "C12_nn_sorter", "C12_knn_sorter",
+        # negations with concrete witnesses (Negations.lean): the code before ef18d0f; necessity of the min <= max hypothesis
+        "C12_old_prune_unsound", "C12_valid_needed",
         # T1: minDist / minMaxDist regenerated from index/rtree/geom.go of the tree under test = the model's
         "C12_tie_minDist", "C12_tie_minMaxDist", "C12_minDist_spec_src", "C12_minMaxDist_spec_src"]],
     "trusted_base": [
